@@ -2,5 +2,5 @@
    Extract Inductive of our own; N, Z, positive, string stay inductive. *)
 From Coq Require Extraction.
 From Coq Require Import ExtrOcamlBasic.
-From MsiModel Require Import Base Sexp Dispatch.
+From MsiModel Require Import Base Sexp PackageCmd Dispatch.
 Extraction "../build/ocaml/msimodel.ml" dispatch init_state run_script.
